@@ -345,7 +345,10 @@ NONNEG = {
     '8995': ['4', '5', '10', '13', '14', '15'],
     '8959': ['4', '6', '7', '18', '22', '24'],
     '1040_qualdiv_capgain_tax_wkst': ['1', '4', '5', '9', '10', '18', '21', '22', '23', '24', '25'],
-    'nc_d-400': ['11', '15', '17', '19', '23', '25', '26a', '27', '28', '34'],
+    'nc_d-400': ['11', '15', '17', '18', '19', '20a', '20b', '23', '25', '26a', '27', '28', '33', '34'],
+    'nc_d-400_consumer_use_tax_wkst': ['estimate', '1', '2', '3', '4', '5', '6', 'consumer_use_tax'],
+    'nc_d-400_child_deduction_wkst': ['4', '5'],
+    'nc_d-400_ss': ['15', '16', '41'],
     'nc_d-400_sa': ['deduction', '10'],
 }
 
